@@ -94,6 +94,19 @@ def t_update_agents():
          z3.And(z3.Implies(b != s, step_c(b) + step_c(s) == CASH(k, b) + CASH(k, s)), z3.Implies(b == s, step_c(b) == CASH(k, b)), z3.Implies(z3.And(x != b, x != s), step_c(x) == CASH(k, x))))
     goal(obl, "Simulator._update_agents_for_execution/lemma:one fill conserves the parties' total shares per market", [],
          z3.And(z3.Implies(b != s, step_s(b) + step_s(s) == SHARES(k, b, m) + SHARES(k, s, m)), z3.Implies(b == s, step_s(b) == SHARES(k, b, m)), z3.Implies(z3.And(x != b, x != s), step_s(x) == SHARES(k, x, m))))
+    # "Hence the total number of shares per market (and total cash) is constant": sum over the agent list, by induction on its length.
+    # A / B: positions before / after one fill, indexed by the agent's place in the (duplicate-free) agent list; jb / js: places of buyer and seller.
+    for nm, srt, SUM in (("shares", z3.IntSort(), SUM_INT), ("cash", z3.RealSort(), SUM_REAL)):
+        A = z3.Const("A_" + nm, z3.ArraySort(z3.IntSort(), srt)); n, jb, js = z3.Ints(f"n_{nm} jb_{nm} js_{nm}"); d = z3.Const("d_" + nm, srt)
+        B = z3.Store(A, jb, z3.Select(A, jb) + d)
+        C = z3.Store(B, js, z3.Select(B, js) - d)        # also right for a self-trade (jb == js): the position is restored
+        ax = sum_axioms(A, SUM) + sum_axioms(B, SUM) + sum_axioms(C, SUM)
+        zero = z3.IntVal(0) if srt == z3.IntSort() else z3.RealVal(0)
+        P1 = lambda m_: SUM(B, m_) == SUM(A, m_) + z3.If(jb < m_, d, zero)
+        P2 = lambda m_: SUM(C, m_) == SUM(B, m_) - z3.If(js < m_, d, zero)
+        goal(obl, f"Simulator._update_agents_for_execution/lemma:total {nm} over the agent list, induction base (empty prefix)", ax + [jb >= 0, js >= 0], z3.And(P1(z3.IntVal(0)), P2(z3.IntVal(0))))
+        goal(obl, f"Simulator._update_agents_for_execution/lemma:total {nm} over the agent list, induction step (prefix n -> n + 1)", ax + [jb >= 0, js >= 0, n >= 0, P1(n), P2(n)], z3.And(P1(n + 1), P2(n + 1)))
+        goal(obl, f"Simulator._update_agents_for_execution/lemma:one fill leaves the total {nm} of all agents unchanged (buyer and seller are in the list)", ax + [0 <= jb, jb < n, 0 <= js, js < n, P1(n), P2(n)], SUM(C, n) == SUM(A, n))
     return {"obligations": obl, "info": [info]}
 
 
